@@ -140,6 +140,10 @@ fn main() {
             init();
             mon_search::run_c09(&args, seed, &tier, &report)
         }
+        "c11s" => {
+            init();
+            mon_search::run_c11_search(&args, seed, &tier, &report)
+        }
         "c12" => {
             init();
             mon_search::run_c12(&args, seed, &tier, &report)
